@@ -10,7 +10,8 @@ open C13
 variable {tab : List Entry} {idxTab : List (String × List Idx)} {tbl : List (String × Arity)}
 
 def addAtom (c : RCtx) (w : Widths) (k : Nat) (a : Atom) : RCtx :=
-  { c with base := { c.base with nodes := c.base.nodes ++ [(toString k, [("atomname", JVal.str a.atomname)])] },
+  { c with base := { c.base with nodes := c.base.nodes ++
+             [(toString k, nodeAttrs k a.atype a.resid a.resname a.atomname a.cgnr)] },
            rows := c.rows ++ [lineTokens (.atom w (k + 1) a)] }
 
 def addInters (c : RCtx) (l : List C13.Inter) : RCtx :=
